@@ -379,7 +379,7 @@ def theorems_in(files, namespace=None):
             m = re.match(r'^\s*end\s+([A-Za-z_][A-Za-z0-9_\.]*)', line)
             if m and stack and stack[-1] == m.group(1):
                 stack.pop(); continue
-            m = re.match(r'^(private\s+)?theorem\s+([A-Za-z_][A-Za-z0-9_\.\']*)', line)
+            m = re.match(r'^(private\s+)?theorem\s+([A-Za-z_][A-Za-z0-9_\.\'?!]*)', line)
             if m and not m.group(1):
                 names.append(".".join(stack + [m.group(2)]))
     return names
